@@ -126,7 +126,13 @@ func (SlidingWindow) New(cfg Config) fiber.Handler {
 				e.currHits--
 			}
 			remaining++
-			manager.set(key, e, cfg.Expiration)
+			// Keep the entry until the end of the next window, like the counting section does:
+			// its hits are the previous hits of the next window.
+			ttl := expiration
+			if now := uint64(utils.Timestamp()); e.exp > now {
+				ttl += e.exp - now
+			}
+			manager.set(key, e, time.Duration(ttl)*time.Second) //nolint:gosec // Not a concern
 			// Unlock entry
 			mux.Unlock()
 		}
